@@ -765,6 +765,66 @@ func (h *h2Hist) sleepOp(dt time.Duration) {
 	h.do(fmt.Sprintf("adv %d", int64(dt)), func() { time.Sleep(dt) })
 }
 
+// opManyChannels (C15, C06): an allocation that holds several channel bindings ends (Refresh 0, expiry or closed control
+// connection); everything it held goes with it at that moment - then time passes beyond every timeout so that anything left
+// behind (a timer, a late event) shows.
+func (h *h2Hist) opManyChannels(c *h2Client) {
+	a := h.live(c)
+	if a == nil {
+		return
+	}
+	relay, _ := a.RelayAddr.(*net.UDPAddr)
+	if relay == nil {
+		return
+	}
+	ip := net.ParseIP("10.0.0.9").To4()
+	if relay.IP.To4() == nil {
+		ip = net.ParseIP("fd00::9")
+	}
+	n := 3 + h.rng.Intn(3)
+	for i := 0; i < n; i++ {
+		p := &net.UDPAddr{IP: ip, Port: 9100 + i}
+		h.goodReq(c, stun.MethodChannelBind, "bind", fmt.Sprintf("num=%d peer=%s", 0x4100+i, canonAddr(p)), proto.ChannelNumber(0x4100+i), proto.PeerAddress{IP: p.IP, Port: p.Port})
+	}
+	switch h.rng.Intn(3) {
+	case 0:
+		h.goodReq(c, stun.MethodRefresh, "refresh", "lt=0 fam=-", proto.Lifetime{})
+	case 1:
+		if T := h.w.srv.allocationLifetime; T <= 20*time.Minute {
+			h.sleepOp(T + time.Second)
+		} else {
+			h.goodReq(c, stun.MethodRefresh, "refresh", "lt=0 fam=-", proto.Lifetime{})
+		}
+	default:
+		h.goodReq(c, stun.MethodRefresh, "refresh", "lt=1 fam=-", proto.Lifetime{Duration: time.Second})
+		h.sleepOp(2 * time.Second)
+	}
+	if h.w.manager(c.lid).GetAllocation(&allocation.FiveTuple{SrcAddr: c.srcAddr(), DstAddr: h.w.lisAddr(c.lid), Protocol: allocation.UDP}) == nil {
+		delete(h.owner, c.key())
+	}
+	if T := h.w.srv.channelBindTimeout; T <= 20*time.Minute {
+		h.sleepOp(T + time.Second)
+	}
+}
+
+// opForeignRefresh0 (C03, C04): another user, with his own valid credentials, sends Refresh(0) on this allocation's 5-tuple:
+// it must be ignored (no answer, nothing deleted)
+func (h *h2Hist) opForeignRefresh0(c *h2Client) {
+	k := c.key()
+	owner := h.owner[k]
+	if owner == "" {
+		return
+	}
+	other := "bob"
+	if owner == "bob" {
+		other = "alice"
+	}
+	cr := h.goodCred(other)
+	h.tid++
+	raw := h.build(stun.NewType(stun.MethodRefresh, stun.ClassRequest), h.tid, &cr, proto.Lifetime{})
+	h.do(fmt.Sprintf("m %s %d refresh %d %s lt=0 fam=-", k, len(raw), h.tid, cr), func() { c.sendRaw(raw) })
+}
+
 func (h *h2Hist) opStraddle(c *h2Client) {
 	a := h.live(c)
 	if a == nil || c.conn != nil && false {
@@ -1079,7 +1139,14 @@ func runH2History(t *testing.T, vt *vhT, seed int64, nOps int) {
 				h.opAdvance()
 			case r < 97:
 				if has && !h.tcpMode {
-					h.opStraddle(c)
+					switch rng.Intn(5) {
+					case 0:
+						h.opManyChannels(c)
+					case 1:
+						h.opForeignRefresh0(c)
+					default:
+						h.opStraddle(c)
+					}
 				} else {
 					h.opAdvance()
 				}
